@@ -90,8 +90,58 @@ def _replay_refine(args):
     return nref, bad
 
 
+def _gate(seed):
+    """VOTree!Refine is enabled only below MaxDepth, per design space: should_refine_design (stub model whose numeric criterion always says
+    'refine') must answer depth < max_depth along a refinement chain - for several design spaces of the same dimensions but different
+    maximum depths living in one process, in both creation orders (state must not leak between instances)."""
+    import numpy as np
+    from vopy.design_space import AdaptivelyDiscretizedDesignSpace
+    rnd = random.Random(seed)
+
+    class Stub:
+        def get_lengthscale_and_var(self):
+            return np.ones(2), np.ones(2)
+
+        def get_kernel_type(self):
+            return "RBF"
+
+        def predict(self, x):
+            n = len(np.atleast_2d(x))
+            return np.zeros((n, 2)), np.array([np.eye(2) * 1e-24 for _ in range(n)])
+
+    bad, n = [], 0
+    for dim in (1, 2, 3):
+        for Dseq in ((4, 2, 3, 1), (1, 3, 2, 4), (3, 3, 2)):
+            hist = []
+            for D in Dseq:
+                ds = AdaptivelyDiscretizedDesignSpace(dim, 2, delta=0.1, max_depth=D)
+                hist.append(D)
+                idx = 0
+                for depth in range(1, D + 1):
+                    try:
+                        got = bool(ds.should_refine_design(Stub(), idx, np.ones(2)))
+                    except Exception as e:
+                        got = "raised " + repr(e)[:120]
+                    n += 1
+                    if got != (depth < D) or ds.point_depths[idx] != depth:
+                        bad.append({"kind": "depth-gate", "dim": dim, "maxdepth": D, "instances_before": hist[:-1], "depth": depth,
+                                    "expected": depth < D, "got": got})
+                        break
+                    if depth < D:
+                        kids = ds.refine_design(idx)
+                        idx = kids[rnd.randrange(len(kids))]
+    return n, bad
+
+
 # ---------------------------------------------------------------------------------------------- VOGP_AD runs
-def _problem(kind):
+def _problem(kind, depth_max=None):
+    p = _problem0(kind)
+    if depth_max is not None:
+        p.depth_max = depth_max
+    return p
+
+
+def _problem0(kind):
     import numpy as np
     from vopy.maximization_problem import BraninCurrin, ContinuousProblem
     if kind == "branin":
@@ -148,9 +198,21 @@ def record_ad(cfg):
     from . import algotrace as AT
     np.seterr(all="ignore")
     set_seed(cfg["seed"])
-    prob = _problem(cfg["problem"])
     orig = gpm.generate_sobol_samples
     gpm.generate_sobol_samples = lambda dim, n: orig(dim, 48)      # hyper-parameter training set: 48 instead of 512 points
+    if cfg.get("warm"):
+        # an earlier run in the same process, on a problem of the same dimensions with another maximum depth (not recorded): nothing
+        # of it may influence the recorded run
+        try:
+            w = VOGP_AD(cfg["eps"], 0.1, _problem(cfg["problem"], cfg["warm"]["depth_max"]), AT.make_order(tuple(cfg["order"])), 0.01,
+                        conf_contraction=cfg["contraction"])
+            for _ in range(cfg["warm"]["steps"]):
+                if w.run_one_step():
+                    break
+        except Exception:
+            pass
+        set_seed(cfg["seed"])
+    prob = _problem(cfg["problem"], cfg.get("depth_max"))
     try:
         alg = VOGP_AD(cfg["eps"], 0.1, prob, AT.make_order(tuple(cfg["order"])), 0.01, conf_contraction=cfg["contraction"])
     except Exception as e:
@@ -262,7 +324,9 @@ def ad_matrix(tier, seed):
          dict(problem="p3", eps=0.3, contraction=32, order=["orth", 2], max_steps=60),
          dict(problem="p2", eps=0.1, contraction=64, order=["theta", 120], max_steps=(90 if q else 200)),
          dict(problem="branin", eps=0.05, contraction=64, order=["theta", 60], max_steps=(100 if q else 260)),
-         dict(problem="p1", eps=0.05, contraction=64, order=["theta", 90], max_steps=80)]
+         dict(problem="p1", eps=0.05, contraction=64, order=["theta", 90], max_steps=80),
+         dict(problem="p1", eps=0.2, contraction=32, order=["orth", 2], max_steps=60, depth_max=3, warm=dict(depth_max=6, steps=40)),
+         dict(problem="p2", eps=0.2, contraction=32, order=["orth", 2], max_steps=60, depth_max=3, warm=dict(depth_max=2, steps=25))]
     if not q:
         M += [dict(problem="branin", eps=0.1, contraction=32, order=["orth", 2], max_steps=260),
               dict(problem="branin", eps=0.05, contraction=64, order=["theta", 135], max_steps=260),
@@ -340,6 +404,12 @@ def run(ctx):
     ctx.traces += sum(len(j[0]) for j in jobs)
     ctx.evaluations += nref
     ctx.extra["refinements_replayed"] = nref
+    ng, badg = _gate(ctx.seed)
+    ctx.evaluations += ng
+    ctx.extra["depth_gate_calls"] = ng
+    for b in badg:
+        ctx.violation("tree-depth-gate|dim=%d" % b["dim"], b, "should_refine_design at depth %d of a design space with max_depth %d answered %s (expected %s); design spaces "
+                      "created before in this process: max_depth %s" % (b["depth"], b["maxdepth"], b["got"], b["expected"], b["instances_before"]))
     run_ad(ctx, "C18")
     ctx.rule = ("VOTree exhaustive for (dim, max depth) in {(1,4),(2,3),(3,2)} (thorough: + (1,5) with 17 nodes: 10^7 states); simulate behaviours (dims 1-3) replayed into refine_design; real VOGP_AD runs on "
                 "1-, 2- and 3-dimensional problems validated per step; non-trivial = steps with a refinement or a change of S")
@@ -354,4 +424,6 @@ def replay(body):
         T = record_ad(c["cfg"])
         rej = validate_ad(Ctx("C18", "quick", 0), [T])
         return not [r for r in rej if c["clause"] in r[2]]
+    if c.get("kind") == "depth-gate":
+        return not _gate(0)[1]
     return not _replay_refine(([], c["dim"], c["maxdepth"]))[1]
